@@ -838,8 +838,10 @@ def run(rep, program: Program, tier: str) -> None:
         "who-may-write analysis for step_size/metric; dominance of the empty-stage guard."
     )
     rep.assumptions = ["stager constructor arguments are non-negative integers and slow_window_multiplier >= 0", "arithmetic of the adapters themselves is C17"]
-    rep.isolate(rule_r1, rep, program)
-    rep.isolate(rule_r2, rep, program)
+    from . import samplersim
+
+    samplersim.with_fallback(rep, program, tier, "R5", rule_r1, rep, program)
+    samplersim.superseded(rep, program, tier, [("R2", "adapter.update runs exactly when the transition has adapters; finalisation is guarded by non-emptiness and visits every (transition, adapter) pair")], "R5", rule_r2, rep, program)
     rep.isolate(rule_r3, rep, program)
     from . import samplersim
 
